@@ -146,6 +146,8 @@ type Machine struct {
 	uuidCtr         int
 	timeCtr         int
 	lastNow         *Term
+	lastSec         *Term
+	lastNsec        *Term
 	itoaMemo        map[int]*StrV
 	known           map[int]*Term
 	fnInfos         map[*ssa.Function]*fnInfo
@@ -270,6 +272,7 @@ func (m *Machine) resetPath() {
 	m.uuidCtr = 0
 	m.timeCtr = 0
 	m.lastNow = nil
+	m.lastSec, m.lastNsec = nil, nil
 	m.itoaMemo = map[int]*StrV{}
 	m.known = map[int]*Term{}
 	m.extState = map[string]interface{}{}
@@ -318,6 +321,11 @@ func (m *Machine) runPath(fn *ssa.Function) {
 		m.res.Inconclusive = appendUniq(m.res.Inconclusive, "step budget: "+endMsg)
 	case "cut":
 		m.res.Cuts[endMsg]++
+	}
+	if os.Getenv("SYMGO_DECISIONS") != "" && m.pathNo == 3000 {
+		for i, d := range m.decisions {
+			fmt.Fprintf(os.Stderr, "dec %d %s feasible=%v idx=%d\n", i, d.label, d.feasible, d.idx)
+		}
 	}
 	m.res.PathsByEnd[end]++
 	m.res.Decisions += len(m.decisions)
@@ -793,7 +801,11 @@ func (m *Machine) info(fn *ssa.Function) *fnInfo {
 }
 
 func (m *Machine) unsupported(format string, args ...interface{}) {
-	panic(pathEnd{"unsupported", fmt.Sprintf(format, args...)})
+	where := ""
+	if m.curG != nil && m.curG.top != nil {
+		where = " [in " + m.curG.top.fn.String() + "]"
+	}
+	panic(pathEnd{"unsupported", fmt.Sprintf(format, args...) + where})
 }
 
 func (m *Machine) cut(reason string) {
